@@ -359,7 +359,9 @@ where
         if let Some((line_num, pos, byte)) = self.first_byte()? {
             if byte == b'>' {
                 self.buf_pos.start = pos;
-                self.position.byte = pos as u64;
+                // `pos` is an offset into the buffer, blank lines consumed by
+                // `first_byte()` have already been added to `position.byte`
+                self.position.byte += pos as u64;
                 self.position.line = line_num as u64;
                 self.search_pos = pos + 1;
                 return Ok(true);
@@ -391,7 +393,11 @@ where
             }
             // If an orphan '\r' is found at the end of the buffer,
             // we need to move it to the start and re-search the line
-            self.buf_reader.consume(pos - 1 - last_line_len);
+            let consumed = pos - 1 - last_line_len;
+            // the last (incomplete) segment is searched again -> don't count it twice
+            line_num -= 1;
+            self.position.byte += consumed as u64;
+            self.buf_reader.consume(consumed);
             self.buf_reader.make_room();
         }
         Ok(None)
